@@ -80,6 +80,7 @@ type G struct {
 	inSwitch   int
 	noIn       bool
 	labels     []string
+	forcePlain bool // the next function is neither async nor a generator
 	nameSeq    int
 	Declared   []string // names declared so far (unique, so that no redeclaration error can arise)
 	Module     bool     // import/export declarations allowed at top level
@@ -804,6 +805,9 @@ func (g *G) function(expr bool) Out {
 	g.depth++
 	defer func() { g.depth-- }()
 	async, gen := g.chance("async", 3), g.chance("generator", 3)
+	if g.forcePlain {
+		async, gen, g.forcePlain = false, false, false
+	}
 	var toks []Tok
 	s := "Decl("
 	if async {
@@ -1423,7 +1427,15 @@ func (g *G) subStmtL(inList bool) Out {
 		g.labels = append(g.labels, l)
 		g.inLoop++
 		var b Out
-		switch g.intn("labelbody", 5) {
+		nbody := 5
+		if inList && !g.Module {
+			nbody = 6 // in a statement list of a script also: a labelled function declaration (Annex B.3.2)
+		}
+		switch g.intn("labelbody", nbody) {
+		case 5:
+			g.Kinds["label-function"]++
+			g.forcePlain = true
+			b = g.function(false)
 		case 3:
 			// a labelled variable statement (its terminator is the label statement's)
 			d := g.varDecl("var", false, true)
